@@ -69,18 +69,28 @@ def extract(repo):
                 if isinstance(k, ast.Lambda) and isinstance(k.body, ast.Call):
                     edge = k
     pairs.sort(key=lambda t: t[0])
-    if len(pairs) != 2 or edge is None:
-        raise Unsupported(f"errors(): expected two cardinality checks and one edge counter, found {len(pairs)} and "
-                          f"{'one' if edge is not None else 'no'} edge lister")
     ns = repo.plog.__dict__
 
     def comp(node):
         expr = ast.Expression(node)
         ast.fix_missing_locations(expr)
         return eval(compile(expr, path, "eval"), ns)
-    return {"var_key": comp(pairs[0][1]), "var_id": comp(pairs[0][2]), "comp_key": comp(pairs[1][1]),
-            "comp_id": comp(pairs[1][2]), "edge": comp(edge),
-            "lines": {"variable check": pairs[0][0], "compound check": pairs[1][0], "edge lister": edge.lineno}}
+
+    class Found(dict):
+        """what the pattern match found; a key function that was not found is reported when it is asked for, so the
+        other obligations are still generated"""
+        def __getitem__(self, k):
+            if k not in self:
+                raise Unsupported(f"errors(): the expression of `{k}` does not match the extraction pattern "
+                                  f"(found {len(pairs)} cardinality checks and {'one' if edge is not None else 'no'} edge lister)")
+            return dict.__getitem__(self, k)
+    out = Found()
+    if len(pairs) == 2:
+        out.update({"var_key": comp(pairs[0][1]), "var_id": comp(pairs[0][2]), "comp_key": comp(pairs[1][1]),
+                    "comp_id": comp(pairs[1][2])})
+    if edge is not None:
+        out["edge"] = comp(edge)
+    return out
 
 
 def sym_var(c, name):
